@@ -29,6 +29,21 @@ pub fn mult_both_orders<F: MonF>(cx: &mut Cx, pr: &Pair, want: &[i64]) {
         call!(cx, "multiply", f.multiply(&sw.a, &sw.b))
     };
     let ok2 = judge(cx, "multiply(b,a)", &sw, &got2, want, None);
+    // operands that are two views of one allocation (b is a prefix of a, or the same slice): the call must not care
+    if pr.b.len() <= pr.a.len() && pr.b[..] == pr.a[..pr.b.len()] {
+        let lb = pr.b.len();
+        let got3 = {
+            let mut f = call!(cx, "new", FFT::<F>::new());
+            call!(cx, "multiply", f.multiply(&pr.a[..], &pr.a[..lb]))
+        };
+        cx.rep.inc("aliased_operand_calls");
+        judge(cx, "multiply(a, prefix of the same allocation)", pr, &got3, want, None);
+        let got4 = {
+            let mut f = call!(cx, "new", FFT::<F>::new());
+            call!(cx, "multiply", f.multiply(&pr.a[..lb], &pr.a[..]))
+        };
+        judge(cx, "multiply(prefix of the same allocation, a)", &sw, &got4, want, None);
+    }
     if ok1 && ok2 && cx.rep.wants_sample() && pr.a.len() + pr.b.len() <= 10 && pr.a.len() >= 2 && pr.b.len() >= 2 {
         let s = Json::obj()
             .set("workload", cx.workload)
@@ -74,9 +89,24 @@ pub fn pairs40<F: MonF>(cx: &mut Cx, idx: u64, seed: u64) {
     let (pa, pb, mode) = P40_VARIANTS[v];
     let mut rng = case_rng(seed, 0xA40, cx.prec, idx);
     cx.rep.see("pairs40_length_pairs", mix(&[cx.prec.id(), la as u64, lb as u64]));
-    if let Some(pr) = build_pair(cx, &mut rng, la, lb, pa, pb, mode) {
+    if let Some(mut pr) = build_pair(cx, &mut rng, la, lb, pa, pb, mode) {
+        make_prefix_pair(cx, &mut pr, idx);
         let want = oracle::conv(&pr.a, &pr.b);
         mult_both_orders::<F>(cx, &pr, &want);
+    }
+}
+
+/// every eighth case: b becomes a prefix of a (content-wise), so that the aliased calls of `mult_both_orders` apply;
+/// kept only if the pair is still inside the envelope
+fn make_prefix_pair(cx: &mut Cx, pr: &mut Pair, idx: u64) {
+    if idx % 8 != 3 || pr.b.len() > pr.a.len() || pr.b.is_empty() {
+        return;
+    }
+    let nb: Vec<i32> = pr.a[..pr.b.len()].to_vec();
+    if inside(cx.prec, pr.a.len(), nb.len(), mag(&pr.a), mag(&nb)) && inside(cx.prec, nb.len(), pr.a.len(), mag(&nb), mag(&pr.a)) {
+        pr.b = nb;
+        pr.mb = pr.ma;
+        pr.pb = pr.pa;
     }
 }
 
@@ -161,7 +191,8 @@ pub fn pattern<F: MonF>(cx: &mut Cx, idx: u64, seed: u64) {
         if max_mag(cx.prec, la, lb).is_none() {
             continue;
         }
-        if let Some(pr) = build_pair(cx, &mut rng, la, lb, pa, pb, mode) {
+        if let Some(mut pr) = build_pair(cx, &mut rng, la, lb, pa, pb, mode) {
+            make_prefix_pair(cx, &mut pr, idx / 16);
             let want = oracle::conv(&pr.a, &pr.b);
             mult_both_orders::<F>(cx, &pr, &want);
         }
